@@ -359,7 +359,7 @@ PROPS["C14"] = {
     "quick": {"shards": 8, "budget_s": 30, "watchdog_s": 900},
     "thorough": {"shards": 16, "budget_s": 420, "watchdog_s": 3600},
     "floor": {"quick": 150, "thorough": 1200},
-    "require_counters": {"quick": {"watched_file_events_for_open_documents": 150, "answers_compared": 1500, "positions_validated_on_editor_text": 8000, "prepare_rename_round_trips": 1500, "histories_editing_after_non_ascii": 100}, "thorough": {"answers_compared": 10000}},
+    "require_counters": {"quick": {"semantic_token_range_answers_compared_with_full": 300, "watched_file_events_for_open_documents": 150, "answers_compared": 1500, "positions_validated_on_editor_text": 8000, "prepare_rename_round_trips": 1500, "histories_editing_after_non_ascii": 100}, "thorough": {"answers_compared": 10000}},
     "rule": "initial texts: 5 base programs (incl. a CRLF one) salted with Latin-1, CJK, BMP symbols and astral emoji in comments, pragmas and strings placed *before* code on the same line; 1-30 "
             "didChange notifications of 1-3 incremental changes each (insert/delete/replace on valid UTF-16 boundaries, biased to positions right after a wide character, CRLF inserts, occasional "
             "full-text change). distinct = the history; non-trivial = >= 1 incremental change on a line whose prefix is non-ASCII, or >= 3 changes",
